@@ -34,8 +34,12 @@ Trunc(f, w) == [k |-> "trunc", form |-> f, why |-> w]
 IsOp(i, n) == i.k = "op" /\ i.name = n
 IsPush(i) == i.k = "push"
 Direct(i, n) == i.k = "push" /\ i.form = "d" /\ i.len = n
-Num(i) == IF i.k # "op" THEN 0
-          ELSE CASE i.name = "N1" -> 1 [] i.name = "N2" -> 2 [] i.name = "N3" -> 3 [] i.name = "N16" -> 16 [] OTHER -> 0
+\* OP_1 .. OP_16 are the ops "N1" .. "N16"
+NumOf == [n \in {"N1", "N2", "N3", "N4", "N5", "N6", "N7", "N8", "N9", "N10", "N11", "N12", "N13", "N14", "N15", "N16"} |->
+            CASE n = "N1" -> 1 [] n = "N2" -> 2 [] n = "N3" -> 3 [] n = "N4" -> 4 [] n = "N5" -> 5 [] n = "N6" -> 6 [] n = "N7" -> 7
+              [] n = "N8" -> 8 [] n = "N9" -> 9 [] n = "N10" -> 10 [] n = "N11" -> 11 [] n = "N12" -> 12 [] n = "N13" -> 13
+              [] n = "N14" -> 14 [] n = "N15" -> 15 [] n = "N16" -> 16]
+Num(i) == IF i.k = "op" /\ i.name \in DOMAIN NumOf THEN NumOf[i.name] ELSE 0
 
 \* opcode classes of the first byte that make a script provably unspendable (legacy context):
 \* OP_RETURN-like (RESERVED, VER, RESERVED1/2, >= 0xba) and illegal (VERIF, VERNOTIF, disabled arithmetic, 0xff)
